@@ -127,15 +127,20 @@ Definition step (c: cfg) (s: st) (e: event) : option st :=
       | _ => None
       end
   | EDropItem j =>
+      (* an item is only ever dropped unprocessed once the outcome is decided (a recorded error) or the whole operation is dropped *)
       match ph s with
-      | PDropped | PFlush | PBack _ =>
-          match find j (works s) with
-          | Some WQueued | Some WMapped => Some (set_works s (remw j (works s)))
-          | None => (* the item waiting in `send` when the consumer broke / the operation was dropped *)
-              Some s
-          | Some WDone => (* a collected output discarded together with the dropped / failed operation *)
-              match c_term c, ph s with TCollect, PDropped => Some (set_works s (remw j (works s))) | _, _ => None end
-          | _ => None
+      | PDropped | PFlush =>
+          match ph s, residual s with
+          | PFlush, None => None
+          | _, _ =>
+            match find j (works s) with
+            | Some WQueued | Some WMapped => Some (set_works s (remw j (works s)))
+            | None => (* the item waiting in `send` when the consumer broke / the operation was dropped *)
+                Some s
+            | Some WDone => (* a collected output discarded together with the dropped operation *)
+                match c_term c, ph s with TCollect, PDropped => Some (set_works s (remw j (works s))) | _, _ => None end
+            | _ => None
+            end
           end
       | _ => None
       end
